@@ -191,6 +191,10 @@ fn request_alphabet(text: &str) -> Vec<Op> {
     ops.push(Op::CloneGet(0));
     ops.push(Op::CloneGet(n.saturating_sub(1)));
     ops.push(Op::CloneCount);
+    // slices go through get_line and therefore move the index too
+    ops.push(Op::Slice(0, 0, 1));
+    ops.push(Op::Slice(n.saturating_sub(1), 1, 1));
+    ops.push(Op::Slice(n, 0, 0));
     ops
 }
 
@@ -358,7 +362,7 @@ pub fn run(run: &mut Run) -> Finish {
     }
     Finish {
         level: "model_checking",
-        rule: "E2 explicit-state search on the real SourceView. For every text of the stated space: BFS from a fresh view over the request alphabet {get_line(0..=n+1), get_line(MAX), line_count, lines().collect, clone+get_line, clone+line_count}; states are the real (progress counter, cached line table) read through the cfg(sourcemap_verif) hook and used only as a dedup key; the search runs until no new state appears, so the claim covers request sequences of any length. Every transition compares the returned value with RLines/RSlice. Plus unmerged request histories and every (line, col, span) triple. states = distinct (text, real state) pairs; transitions = requests executed on real views; traces = histories replayed on fresh real objects (all of them — there is no separate model whose traces would need validation).".into(),
+        rule: "E2 explicit-state search on the real SourceView. For every text of the stated space: BFS from a fresh view over the request alphabet {get_line(0..=n+1), get_line(MAX), line_count, lines().collect, clone+get_line, clone+line_count, three get_line_slice requests}; states are the real (progress counter, cached line table) read through the cfg(sourcemap_verif) hook and used only as a dedup key; the search runs until no new state appears, so the claim covers request sequences of any length. Every transition compares the returned value with RLines/RSlice. Plus unmerged request histories and every (line, col, span) triple. states = distinct (text, real state) pairs; transitions = requests executed on real views; traces = histories replayed on fresh real objects (all of them — there is no separate model whose traces would need validation).".into(),
         assumptions: vec![
             "RLines / RSlice (refmodel of the statement): split at \\r\\n | \\n | \\r, UTF-16 slicing with whole pairs included".into(),
             "slice start columns that split a surrogate pair: crash-freedom only (DESIGN 3.3)".into(),
